@@ -13,7 +13,9 @@ META = {
     'only), leaf/index bookkeeping, the shape of the conformity closure '
     '(all edges, strictly lower, same axis, before the first mutation), '
     'vertex reuse, the initial tensor wiring, and stale-handle analysis of '
-    'the uniform drivers.',
+    'all refinement drivers; bulk-marking loop schema (R-mark), element '
+    'geometry (R-geometry) and the counts/listings of the gmsh dump '
+    '(R-gmsh).',
     'checker_cmd': 'python3-vt -m stbem_static C02 --tier <tier>',
     'trusted_base': ['CPython ast', 'paper induction A.1/A.2 of DESIGN.md'],
 }
